@@ -40,8 +40,22 @@ CONFIGS = {
     "K14c": (ND + ["--features", "simd"], "-C target-feature=+avx2", "static AVX2"),
     "K15": (ND + ["--features", "alloc,easy-functions"], "", "alloc without std"),
     "K16": (["--features", "unsafe,serde,strict-parser"], "", "unsafe text path in Serialize"),
+    # other targets: type-checked with -Zbuild-std (rust-src is installed), nothing is ever executed
+    "K17": (ND + ["--features", "simd"], "", "aarch64: static NEON backends", {"target": "aarch64-unknown-linux-gnu", "build_std": "core,alloc"}),
+    "K19": (ND, "", "i686: 32-bit usize, 32-bit pseudo-SIMD", {"target": "i686-unknown-linux-gnu", "build_std": "core,alloc"}),
+    "K20": (ND + ["--features", "simd"], "-C target-feature=+simd128", "wasm32: simd128 bucket aggregation", {"target": "wasm32-unknown-emscripten", "build_std": "core,alloc"}),
+    "K21": (ND, "", "riscv64 without Zbb: length encoder without leading_zeros", {"target": "riscv64gc-unknown-linux-gnu", "build_std": "core,alloc"}),
 }
 ALL_KEYS = list(CONFIGS)
+
+
+def target_of(key):
+    ex = CONFIGS[key][3] if len(CONFIGS[key]) > 3 else {}
+    return ex.get("target", "x86_64-unknown-linux-gnu")
+
+
+def pointer_width(key):
+    return 32 if target_of(key).startswith(("i686", "wasm32", "arm", "riscv32")) else 64
 
 
 class EnvError(Exception):
@@ -100,7 +114,8 @@ def ensure_driver():
 def build_facts(key, repo=None, package="fast-tlsh", crate="tlsh", manifest_dir=None, extra_crates=None):
     """Run the driver for configuration `key`; returns (path, log, compiled_ok)."""
     repo = repo or REPO
-    args, rflags, _ = CONFIGS[key]
+    args, rflags = CONFIGS[key][0], CONFIGS[key][1]
+    extra = CONFIGS[key][3] if len(CONFIGS[key]) > 3 else {}
     tag = hashlib.sha256(repo.encode()).hexdigest()[:8] if repo != "/repo" else "repo"
     fdir = os.path.join(WORK, "facts", tag, key)
     tdir = os.path.join(WORK, "target", tag, key)
@@ -137,6 +152,8 @@ def build_facts(key, repo=None, package="fast-tlsh", crate="tlsh", manifest_dir=
             }
         )
         cmd = ["cargo", "+nightly", "check", "--offline", "-p", package] + args
+        if extra.get("target"):
+            cmd += ["--target", extra["target"], "-Zbuild-std=" + extra.get("build_std", "core")]
         r = subprocess.run(cmd, cwd=manifest_dir or repo, env=env, capture_output=True, text=True)
         log = r.stderr[-6000:]
         if r.returncode != 0 or not os.path.exists(out):
@@ -247,6 +264,10 @@ class Facts:
         if not c or not c.get("value"):
             return None
         return c["value"].get("v")
+
+    @property
+    def usize_bytes(self):
+        return pointer_width(self.key) // 8 if self.key in CONFIGS else 8
 
     def const_array(self, path, elem_size, signed=False):
         b = self.const_bytes(path)
